@@ -38,4 +38,5 @@ df0ab5d C27 NewManagedWriteBatch with a Set without a version next to a SetEntry
 ddb7395 C32 Subscribe with an unparsable pattern, then more than 1000 matching commits
 d79e38c C32 a subscriber while value-log GC rewrites a file or a merge operator stores its fold
 0a0d6fa C37 InMemory database and values exactly as large as the value threshold (many in one transaction; one through an incremental StreamWriter)
+0f2d549 C11 a backup restored through KVLoader instead of DB.Load, then a commit
 L
